@@ -8,7 +8,7 @@ from .common import *
 ID = "C01"
 RULE = ("Hypothesis-generated expression models (trees over all 15 constructors, let-list DAGs with shared "
         "objects, unary chains up to depth 40, n-ary nodes up to arity 12, exact polynomial/dyadic trees) x "
-        "generated finite points, as Point and as bare number; oracle = independent 50-digit mpmath "
+        "generated finite points, as Point and as bare number, plus the same object evaluated at 2-4 points in a row; oracle = independent 50-digit mpmath "
         "interpreter with exact-Fraction track and running error bound.  Non-trivial = reference says "
         "DEFINED and in range AND (depth >= 4 or a shared non-leaf node or an n-ary arity not in {2,3} or "
         "n >= 4 or a base other than e/2); distinct by SHA-1 of (canonical model, point).")
@@ -65,6 +65,44 @@ def check(stats, m, env, bare=False, sub="value"):
         stats.nontrivial_case(M.digest(M.canon(m), sorted(env.items())), describe(m, env, value=repr(val)))
 
 
+def check_sequence(stats, m, envs, sub="sequence"):
+    """The SAME expression object evaluated at several points in a row (ordinary use): every answer must be
+    the reference's for that point, whatever happened at the earlier points (including failures)."""
+    stats.case()
+    e = build(m)
+    trail = []
+    for k, env in enumerate(envs):
+        r, _ = RE.evaluate(m, env)
+        out = lib.call(lambda: e.at(lib.Point(**env)))
+        trail.append(f"{M.point_text(env)} -> {out!r}")
+        if r.st != RE.DEFINED or out.kind == lib.OVF:
+            continue
+        case = make_case(sub, m, None, points=[M.point_to_json(x) for x in envs[:k + 1]])
+        where = f"{M.text(m)[:250]}: evaluations in a row on one object: {'; '.join(trail)}"
+        if out.kind != lib.NUM:
+            raise violation(ID, sub, f"sequence-no-number:{out.kind}", case, f"{where}: reference value at the last point is {r.v}")
+        if r.q is not None:
+            if Fraction(out.value) != r.q:
+                raise violation(ID, sub, "sequence-inexact", case, f"{where}: expected exactly {r.q} at the last point")
+        elif not ill_conditioned(r.eps, r.v):
+            ok, ratio = within(out.value, r.v, r.eps)
+            if not ok:
+                raise violation(ID, sub, "sequence-value", case, f"{where}: expected {r.v} at the last point (error/bound {ratio:.3g})")
+        stats.count("sequence-evaluations")
+    if len(envs) >= 2:
+        stats.nontrivial_case(M.digest(M.canon(m), [sorted(x.items()) for x in envs]), {"expr": M.text(m)[:300], "sequence": trail[:4]})
+
+
+def make_sequence(stats):
+    @given(st.data())
+    def test(data):
+        names = data.draw(S.name_lists(1, 3))
+        m = data.draw(S.expressions(names, depth=3))
+        envs = [data.draw(S.points(names)) for _ in range(data.draw(st.integers(2, 4)))]
+        check_sequence(stats, m, envs)
+    return test
+
+
 def make_general(stats):
     @given(st.data())
     def test(data):
@@ -104,10 +142,14 @@ def make_exact(stats):
 
 def parts(tier):
     n = 20000 if tier == "quick" else 400000
-    return [hyp_part("general", make_general, int(n * 0.7)), hyp_part("exact", make_exact, int(n * 0.3))]
+    return [hyp_part("general", make_general, int(n * 0.55)), hyp_part("exact", make_exact, int(n * 0.25)),
+            hyp_part("sequence", make_sequence, int(n * 0.2))]
 
 
 def replay(case):
+    if case.get("sub") == "sequence":
+        check_sequence(Stats(), case_model(case), [M.point_from_json(p) for p in case["points"]])
+        return
     check(Stats(), case_model(case), case_point(case), bare=True, sub=case.get("sub", "value"))
 
 
